@@ -5,18 +5,20 @@ RULE = ("for the histories of the MC_Parser instances text / children / attrs, F
         "(<x/> and <x></x>, Text and CDATA lead to the same full state in every reading state); on the real code every "
         "rewrite the property lists (other values, other text incl. whitespace, text<->CDATA, insert/remove comment, PI, XML "
         "declaration, DOCTYPE, <x/> <-> <x></x>, expand_empty_elements, chunked readers and BufReader capacities 1..64) is "
-        "applied (quick: one random position per kind on every 6th-12th history; thorough: every position on every 2nd-4th history) and the rendered bytes under both presets "
+        "applied (one random position per kind; quick: on every 6th-12th history, thorough: on every 3rd-6th history) and the rendered bytes under both presets "
         "and both sort orders must be identical. non-trivial = a session to which at least one structural rewrite applied")
 
 
 def run(tier, rep):
-    strides = {"text": 12, "children": 12, "attrs": 8, "names": 1, "mixed": 6} if tier == "quick" else {"text": 4, "children": 4, "attrs": 3, "names": 1, "mixed": 2}
+    strides = {"text": 12, "children": 12, "attrs": 8, "names": 1, "mixed": 6} if tier == "quick" else {"text": 6, "children": 6, "attrs": 4, "names": 1, "mixed": 3}
 
     def relation(rep, inst, cases):
         pc.run_relation(rep, "c11-rewrite", inst, cases, stride=strides[inst],
-                        extra=["--all", 0 if tier == "quick" else 1, "--boundary", 1 if inst == "text" else 0])
+                        extra=["--all", 0, "--boundary", 1 if inst == "text" else 0])
 
-    pc.check(rep, "C11", tier, ["text", "children", "attrs", "mixed", "names"], set(), None, 0, rule=RULE, relation=relation,
+    # the thorough tier keeps the instance bounds of the quick tier and applies the rewrites to two to three times as many of
+    # their histories: with the larger bounds the relation runs alone exceeded 50 minutes (measured twice)
+    pc.check(rep, "C11", "quick", ["text", "children", "attrs", "mixed", "names"], set(), None, 0, rule=RULE, relation=relation,
              invariants=["TypeOK", "FormInsensitive", "Exact"], nontrivial=lambda x: x["expect"]["st"] == "ok")
     rep.add(traces_validated_against_impl=rep.coverage.get("relation_applications", 0))
     rep.assumptions += ["text versus no text, and whitespace-only text, are structure (the default reader does not trim) and "
